@@ -112,6 +112,10 @@ type loopInfo struct {
 	d0      string // decreases value at head
 	stmt    ast.Node
 	headSt  *State
+	autoRI  *ssa.Alloc
+	autoDec string
+	autoMap string
+	autoMapT *types.Map
 	entryOld *State
 }
 
